@@ -445,6 +445,58 @@ func (m *Model) views() []view {
 }
 
 // BeforeLast captures the pre-state.
+// Tag marks a successful truncation of a single-tip ledger as a twin transition: with one tip every live vertex
+// descends from the cut, so the node must decide every later event exactly as it would have without truncating.
+func (m *Model) Tag(ev, res string) string {
+	p := strings.Split(ev, ":")
+	if p[0] != "T" || res != "ok" || !m.Cfg.Props["C07"] {
+		return ""
+	}
+	i, _ := strconv.Atoi(p[1])
+	if i < len(m.pre) && len(m.pre[i].S.Leaves) == 1 && len(m.pre[i].S.Parked) == 0 {
+		return "twin"
+	}
+	return ""
+}
+
+// Projection is the truncation-invariant part of the state: which vertices each node holds (live or
+// checkpointed), the transaction index and the parked vertices.
+func (m *Model) Projection() string {
+	if !m.Cfg.Props["C07"] {
+		return ""
+	}
+	R := m.W.Ref
+	var parts []string
+	for i, v := range m.views() {
+		var held, idx, parked []string
+		for h := range v.live {
+			held = append(held, R.Name(h))
+		}
+		for h := range v.stored {
+			if _, both := v.live[h]; !both {
+				held = append(held, R.Name(h))
+			}
+		}
+		for th, vh := range v.S.TrxIndex {
+			lbl, ok := R.TxLabels[th]
+			if !ok {
+				lbl = hx(th)
+			}
+			var h [32]byte
+			copy(h[:], vh)
+			idx = append(idx, lbl+">"+R.Name(h))
+		}
+		for _, p := range v.S.Parked {
+			parked = append(parked, R.Name(p.Vertex.Hash))
+		}
+		sort.Strings(held)
+		sort.Strings(idx)
+		sort.Strings(parked)
+		parts = append(parts, fmt.Sprintf("N%d{V[%s] I[%s] P[%s]}", i, strings.Join(held, " "), strings.Join(idx, " "), strings.Join(parked, " ")))
+	}
+	return strings.Join(parts, " ")
+}
+
 func (m *Model) BeforeLast(string) {
 	old := vsched.Quiet(true)
 	m.pre = m.views()
